@@ -1,6 +1,7 @@
 package c13
 
 import (
+	"bytes"
 	"context"
 	"fmt"
 	"strings"
@@ -39,6 +40,19 @@ func init() {
 					})
 				}})
 			}
+			// histories of length 2: a failing conversion on each side first (the converters keep pooled state)
+			gs = append(gs, Group{Name: "after-failure", Enum: func(tier string, yield func(core.Case) bool) {
+				for _, g := range []string{"presence", "recursion"} {
+					if !pj.ScopeEnumerate(tier, g, func(cc *pj.ConvCase) bool {
+						if cc.NonFin {
+							return true
+						}
+						return yield(protoCaseAfterFailure(cc))
+					}) {
+						return
+					}
+				}
+			}})
 			gs = append(gs, Group{Name: "length-prefix-sweep", Enum: func(tier string, yield func(core.Case) bool) {
 				for _, cc := range prefixSweep() {
 					if !yield(protoCase(cc)) {
@@ -194,6 +208,104 @@ func protoCase(cc *pj.ConvCase) core.Case {
 					r.Add("protobuf|"+trig+"|json-roundtrip-differs", "%s: p2j(j2p(j)) denotes another value than j: %v\nj  = %s\nj' = %s", cc.What, diffs[0], js, js2)
 				}
 			}
+			if len(r.Viol) > 0 {
+				r.Class = "violation"
+			}
+			return r
+		},
+	}
+}
+
+// failingJSON: documents derived from a conforming one that the JSON side must refuse: every truncation, and at
+// every member boundary an unknown member followed by a broken literal / by the end of the text.
+func failingJSON(js []byte) [][]byte {
+	var out [][]byte
+	step := 1
+	if len(js) > 400 {
+		step = len(js) / 200
+	}
+	for k := 1; k < len(js); k += step {
+		out = append(out, js[:k:k])
+	}
+	for k := 1; k < len(js); k++ {
+		if js[k] == '"' && (js[k-1] == '{' || js[k-1] == ',') {
+			out = append(out, append(append([]byte{}, js[:k]...), `"zzz_unknown":tru`...), append(append([]byte{}, js[:k]...), `"zzz_unknown":`...),
+				append(append([]byte{}, js[:k]...), `"zzz_unknown":{"a":[1,`...))
+		}
+	}
+	return out
+}
+
+// protoCaseAfterFailure: the round trip of cc on converters (and pools) that have just failed on a damaged input.
+func protoCaseAfterFailure(cc *pj.ConvCase) core.Case {
+	return core.Case{
+		Tag: "protobuf|after-failure," + cc.Focus,
+		Desc: func() interface{} {
+			c := pj.Compile(cc.Prog)
+			return pdesc{"after a failing conversion: " + cc.What, cc.Prog.SourceDump(), fmt.Sprintf("%x", pj.Marshal(cc.Build(c.Ref)))}
+		},
+		Run: func() core.Result {
+			r := core.Result{Class: "ok", Key: "protobuf|after-failure|" + cc.Prog.Name + "|" + cc.What}
+			c := pj.Compile(cc.Prog)
+			if c.Err != nil {
+				r.Class, r.Key = "descriptor-error", ""
+				return r
+			}
+			in := pj.Marshal(cc.Build(c.Ref))
+			ctx := context.Background()
+			trig := "after-failure," + cc.Focus
+			pc := p2j.NewBinaryConv(conv.Options{})
+			cv := j2p.NewBinaryConv(conv.Options{})
+			var js0, back0 []byte
+			var e1, e2 error
+			if pi := core.Catch(func() {
+				js0, e1 = pc.Do(ctx, c.In, in)
+				if e1 == nil {
+					back0, e2 = cv.Do(ctx, c.In, js0)
+				}
+			}); pi != nil || e1 != nil || e2 != nil {
+				r.Class, r.Key = "not-convertible", "" // the plain family reports it
+				return r
+			}
+			js0, back0 = append([]byte{}, js0...), append([]byte{}, back0...)
+			n := 0
+			for _, f := range failingJSON(js0) {
+				f := f
+				var back []byte
+				var ef, eb error
+				pi := core.Catch(func() {
+					_, ef = cv.Do(ctx, c.In, f)
+					back, eb = cv.Do(ctx, c.In, js0)
+				})
+				n++
+				switch {
+				case pi != nil:
+					r.Add("protobuf|"+trig+"|panic@"+pi.Site+":"+core.PanicClass(pi.Val), "%s: panic %s after the failing document %q\n%s", cc.What, pi.Val, f, pi.Stack)
+				case eb != nil:
+					r.Add("protobuf|"+trig+"|j2p-rejects-p2j-output", "%s: right after the damaged document %q (err=%v) j2p rejects %s: %v", cc.What, f, ef, js0, eb)
+				case !bytes.Equal(back, back0):
+					r.Add("protobuf|"+trig+"|message-differs", "%s: right after the damaged document %q (err=%v) j2p(%s) = %x, alone %x", cc.What, f, ef, js0, back, back0)
+				}
+				if len(r.Viol) > 0 {
+					break
+				}
+			}
+			for k := 0; k < len(in) && len(r.Viol) == 0; k++ {
+				var js []byte
+				var ef, eb error
+				pi := core.Catch(func() {
+					_, ef = pc.Do(ctx, c.In, in[:k:k])
+					js, eb = pc.Do(ctx, c.In, in)
+				})
+				n++
+				switch {
+				case pi != nil:
+					r.Add("protobuf|"+trig+"|panic@"+pi.Site+":"+core.PanicClass(pi.Val), "%s: panic %s after the message cut to %d bytes\n%s", cc.What, pi.Val, k, pi.Stack)
+				case eb != nil || !bytes.Equal(js, js0):
+					r.Add("protobuf|"+trig+"|json-differs", "%s: right after the message cut to %d bytes (err=%v) p2j gives %s err=%v, alone %s", cc.What, k, ef, js, eb, js0)
+				}
+			}
+			r.Count("primed_roundtrips", int64(n))
 			if len(r.Viol) > 0 {
 				r.Class = "violation"
 			}
